@@ -52,6 +52,8 @@ func cliMakeSet(rng *rand.Rand, root string, k int, longLines bool) *cliSet {
 	s.files["src/main.go"] = append(append([]byte("// Copyright 2021 Acme\n//\n"), bytes.Replace(pick(hdr), []byte("\n"), []byte("\n// "), -1)...), []byte("\npackage main\n\nfunc main() {}\n")...)
 	s.files["README.md"] = []byte("This project does something useful.\nNo license text here, only prose about building and running it.\n")
 	s.files["empty.txt"] = []byte{}
+	// matches that tie in confidence, file and lines: both WTFPL variants have the same words
+	s.files["ambiguous/wtfpl.txt"] = cliRead("License/WTFPL/license.txt")
 	s.files["two/both.txt"] = append(append(pick(lic), []byte("\n\n-----\nzzqxv qqzzk\n\n")...), pick(lic)...)
 	if k%2 == 1 { // many matches per file: what concurrent appends need in order to collide
 		var nb bytes.Buffer
